@@ -233,6 +233,15 @@ def gen_index(rng, shape, adv="maybe", malformed=False):
     return ix
 
 
+def expand_ell(ix, rank):
+    """the index with Ellipsis replaced by the full slices it stands for (as convert_ellipsis_to_idx does)"""
+    if not any(i[0] == "ell" for i in ix):
+        return list(ix)
+    used = sum((len(i[1]) if i[0] == "mask" else 1) for i in ix if i[0] not in ("none", "ell"))
+    pos = [j for j, i in enumerate(ix) if i[0] == "ell"][0]
+    return list(ix[:pos]) + [("slice", None, None, None)] * max(0, rank - used) + [i for i in ix[pos + 1:] if i[0] != "ell"]
+
+
 def ix_kinds(ix):
     return "+".join(sorted({i[0] if i[0] != "tens" else "tens" + str(len(i[2])) for i in ix})) or "empty"
 
